@@ -142,16 +142,13 @@ def judge(ctx, c07, tab, case, status, obj, ptrs):
     info["why"] = why
     explained = None
     if fired:
-        if case["mst"] == "undef":
-            explained = "undef"
-        elif case["mst"] == "err" and status.startswith("cproc:1"):
+        if case["mst"] == "err" and status.startswith("cproc:1"):
             explained = "reject"
         elif status == "ok" and obj is not None and case["fimg"] and \
                 compare(c07, tab, case, obj[0], obj[1], ptrs, want_img=case["fimg"], want_rel=case["frel"]) is None:
             explained = "image"
     if explained:
-        blame = [d for d in fired if d == "AnonNoMem"] if explained == "undef" else fired
-        for dv in blame or fired:
+        for dv in fired:
             k = "dev:AutoBackZero:auto" if dv == "AutoBackZero" else "dev:%s:%s" % (dv, explained)
             ctx.violation(k, "automatic %s: %s" % (decl, why), info)
     else:
